@@ -174,6 +174,15 @@ Proof.
   - intros j s Hj. cbn. apply probes_headers. exact Hj.
 Qed.
 
+(* Sheet.row_iter with the do-nothing loader and a bound schema delivers every instance
+   (the rules of Gen/HeaderRowParams.v: HeaderRowP.rule_row_iter, rule_body_base) *)
+Lemma rows_preset_some {S I} (keep : body_pred -> I -> bool) (s : S) (src : list I) :
+  rows_preset keep (Some s) src = Ok src.
+Proof.
+  unfold rows_preset. rewrite rule_row_iter. cbn [bind fst snd]. rewrite rule_body_base.
+  destruct src; reflexivity.
+Qed.
+
 (* ================================================================ Part B: NDJSON *)
 Lemma lookup_combine {V} (hs : list key) : forall (vs : list V) i k,
   NoDup hs -> nth_error hs i = Some k -> i < length vs -> lookup (combine hs vs) k = nth_error vs i.
@@ -203,14 +212,17 @@ Proof.
   destruct He as (e & He & <-). exists e. apply (find_entry_nth _ i e Hnd' He).
 Qed.
 
+(* DNav.name: a member the document does not have is a KeyError (instance[name], not instance.get(name)) *)
+Lemma rule_dnav_missing : dnav_absent = Err KeyError.
+Proof. reflexivity. Qed.
+
 Lemma json_ok T : wf_table T ->
   read_json (C_json (map (phys_doc T) (t_rows T))) [t_header T] = expected [([], T)].
 Proof.
   intros [Hnd Hrect]. unfold read_json. cbn [sheet_names map json_instances bind probes_at nth expected fst snd].
   f_equal. f_equal.
-  assert (Hp : rows_preset (Some (hand_schema (t_header T))) (map (phys_doc T) (t_rows T))
-               = Ok (map (phys_doc T) (t_rows T))).
-  { unfold rows_preset. destruct (map (phys_doc T) (t_rows T)); reflexivity. }
+  assert (Hp : rows_preset keep_nonempty (Some (hand_schema (t_header T))) (map (phys_doc T) (t_rows T))
+               = Ok (map (phys_doc T) (t_rows T))) by apply rows_preset_some.
   rewrite Hp. cbn [bind]. unfold expected_rows. f_equal. rewrite map_map.
   apply map_ext_in. intros r Hr. pose proof (rect_row T r Hrect Hr) as Hlen.
   rewrite (by_index_map (fun k => dnav_name (hand_schema (t_header T)) k (phys_doc T r))
@@ -218,7 +230,7 @@ Proof.
              (t_header T) (map Txt r)).
   - rewrite map_map. reflexivity.
   - rewrite map_length. exact Hlen.
-  - intros i k Hk. unfold dnav_name.
+  - intros i k Hk. unfold dnav_name. rewrite rule_dnav_missing.
     destruct (find_entry_hand _ i k Hnd Hk) as [e ->].
     unfold phys_doc. erewrite lookup_combine; [reflexivity|exact Hnd|exact Hk|].
     assert (Hi : i < length (t_header T)) by (apply nth_error_Some; unfold text, key in *; congruence).
@@ -404,7 +416,7 @@ Proof.
   rewrite Forall_forall in H. apply H. exact Hx.
 Qed.
 
-Lemma rows_preset_some {S I} (s : S) (src : list I) : rows_preset (Some s) src = Ok src.
+Lemma rows_plain_some {S I} (s : S) (src : list I) : rows_plain (Some s) src = Ok src.
 Proof. destruct src; reflexivity. Qed.
 
 Lemma fixed_text_ok T widths :
@@ -633,7 +645,7 @@ Proof.
   destruct (ebcdic_records_ok r kind wb_lrecl T widths Hfit Hne Hbuf Hl) as (bufs & Hrec & HF).
   destruct (fits_inv widths T Hfit) as [Hlen Hrows].
   unfold read_ebcdic, expected, expected_rows. cbn [map fst snd pad_table t_rows].
-  rewrite Hrec. cbn [bind]. rewrite rows_preset_some. cbn [bind]. f_equal. f_equal. f_equal.
+  rewrite Hrec. cbn [bind]. rewrite rows_plain_some. cbn [bind]. f_equal. f_equal. f_equal.
   rewrite map_map.
   assert (Hrep' : forall row, In row (t_rows T) -> forallb (forallb in_repertoire) row = true).
   { intros row Hrow. unfold repertoire_ok in Hrep. rewrite forallb_forall in Hrep. apply Hrep. exact Hrow. }
@@ -794,6 +806,6 @@ Proof.
   split; [vm_compute; reflexivity|]. vm_compute. intros H. discriminate H.
 Qed.
 
-Lemma rows_preset_is_row_iter (s : schema) (src : sheet) :
-  row_iter NoLoader (Some s) src = Ok (Some s, src) /\ rows_preset (Some s) src = Ok src.
+Lemma rows_preset_is_row_iter keep (s : schema) (src : sheet) :
+  row_iter NoLoader (Some s) src = Ok (Some s, src) /\ rows_preset keep (Some s) src = Ok src.
 Proof. split; [apply rows_noloader|apply rows_preset_some]. Qed.
